@@ -5,6 +5,7 @@
 import Hg.Model.History
 import Hg.Proofs.All
 import Hg.Proofs.FillLaws
+import Hg.Proofs.InvNp
 
 namespace Hg.Hist
 
@@ -58,6 +59,23 @@ theorem ok_fill {z a : Agg} (hg : good z = true) (ha : Ok z a) (d : Datum) (w : 
   exact ⟨inv_fill a d w ha.good ha.inv hw hg' hok', hg', hasTmpl_fill a d w ha.tmpl,
     sameBase_trans z a _ hg ha.good hg' ha.base (sameBase_fill a d w ha.good hok')⟩
 
+/-- a vectorised fill under the executable hypotheses of C03 (`okStep`): it returns a state, and that state is the
+row-wise state `fillAll a (rows.zip ws)` up to zero-weight bins (`Np.main_all`); `inv`, `good`, `hasTmpl` and the static
+structure are transported from the row-wise state along `Np.Zrel` (`Zrel_inv`, `Frame.Zrel_transfer`) -/
+theorem ok_fillNp {z a : Agg} (hg : good z = true) (ha : Ok z a) (rows : List Datum) (ws : List Val)
+    (hlen : rows.length = ws.length) (hw : nonNegW ws = true) (hrun : goodRun a (rows.zip ws) = true)
+    (hs : noNanForSums a rows = true) (hq : qtysOk a rows = true) :
+    ∃ a', fillNp a rows ws = some a' ∧ Ok z a' := by
+  obtain ⟨a', h1, h2⟩ := Np.main_all a rows ws hlen hw hrun ha.tmpl hs hq
+  have gr : good (fillAll a (rows.zip ws)) = true := good_fillAll a _ hrun
+  have tr : hasTmpl (fillAll a (rows.zip ws)) = true := hasTmpl_fillAll a _ ha.tmpl
+  have ir : inv (fillAll a (rows.zip ws)) = true := InvB.inv_fillAll_aux _ a ha.good ha.inv hrun
+  have br : sameBase a (fillAll a (rows.zip ws)) = true := sameBase_fillAll a _ hrun
+  obtain ⟨ga, ta, ba⟩ := Frame.Zrel_transfer h2 gr tr
+  exact ⟨a', h1, Zrel_inv h2 gr ir, ga, ta,
+    sameBase_trans z a a' hg ha.good ga ha.base
+      (sameBase_trans a _ a' ha.good gr ga br ba)⟩
+
 theorem ok_addRaw {z a b : Agg} (hg : good z = true) (ha : Ok z a) (hb : Ok z b) : Ok z (addRaw a b) := by
   have hab := ok_sameBase hg ha hb
   obtain ⟨g, sb⟩ := good_addRaw a b ha.good hb.good ha.tmpl hb.tmpl hab
@@ -100,7 +118,8 @@ theorem ok_copy {z a c : Agg} (ha : Ok z a) (h : copy a = some c) : Ok z c := by
 
 /-! ### the pool -/
 
-/-- a fill step lands in a `good` state (no constraint on the other operations) -/
+/-- a fill step lands in a `good` state (no constraint on the other operations; for a vectorised fill the `goodRun`
+conjunct of `okStep` already says that every intermediate row-wise state is `good`) -/
 def goodStep (pool : List Agg) : HOp → Bool
   | .fill i d w =>
     match pool[i]? with
@@ -134,6 +153,17 @@ theorem ok_step {z : Agg} (hg : good z = true) {pool : List Agg} (hp : ∀ a ∈
       rw [hi] at hok hgs
       simp only [Bool.and_eq_true] at hok
       exact ok_set hp i (ok_fill hg (hp a (List.mem_of_getElem? hi)) d w hok.1 hok.2 hgs)
+  | fillnp i rows ws =>
+    simp only [stepH, okStep] at hok ⊢
+    cases hi : pool[i]? with
+    | none => simpa [hi] using hp
+    | some a =>
+      rw [hi] at hok
+      simp only [Bool.and_eq_true, decide_eq_true_eq] at hok
+      obtain ⟨⟨⟨⟨hlen, hw⟩, hrun⟩, hs⟩, hq⟩ := hok
+      obtain ⟨a', h1, h2⟩ := ok_fillNp hg (hp a (List.mem_of_getElem? hi)) rows ws hlen hw hrun hs hq
+      simp only [h1]
+      exact ok_set hp i h2
   | add i j =>
     simp only [stepH]
     cases hi : pool[i]? with
